@@ -83,7 +83,7 @@ func c08Valid(r *rand.Rand) *cfg.Config {
 // c08Invalid carries >=6 simultaneous defects of one or more classes.
 func c08Invalid(r *rand.Rand, class int) *cfg.Config {
 	c := c08Valid(r)
-	switch class % 6 {
+	switch class % 7 {
 	case 0: // meta imports/functions validators
 		for i := 0; i < 7; i++ {
 			c.Meta.Imports = append(c.Meta.Imports, cfg.KS{K: fmt.Sprintf("bad alias %d", i), V: fmt.Sprintf("bad import %d", i)})
@@ -116,6 +116,7 @@ func c08Invalid(r *rand.Rand, class int) *cfg.Config {
 		for i := 0; i < 7; i++ {
 			gen.Inject(r, c, "token", i)
 		}
+	case 6: // valid content; the defect is in the patterns (see the caller)
 	default: // a bit of everything
 		for i, k := range gen.DefectKinds {
 			gen.Inject(r, c, k, i)
@@ -233,7 +234,8 @@ func checkC08(c *Ctx) error {
 			g.files = append(g.files, cfg.File{Name: names[k], Content: parts[k].YAML()})
 		}
 		g.pats = []string{"in/*.yaml"}
-		if !g.valid && i%4 == 1 {
+		if !g.valid && (i/2)%7 == 6 {
+			// its own defect class: every file is matched by three patterns (Read config fails before anything else is reported)
 			g.pats = []string{"in/*.yaml", "in/?.yaml", "i*/[a-f].yaml"}
 		}
 		groups[i] = g
